@@ -312,6 +312,17 @@ def strip_obj(o):
     return [o[0], cs]
 
 
+def norm_neg(o):
+    """a negative numeric literal and unary minus applied to the positive literal are the same grouping
+    (whether `-1` is one token is a lexical matter, not a precedence one): normalise to the unary form"""
+    if isinstance(o[1], str):
+        return o
+    cs = [norm_neg(c) for c in o[1]]
+    if o[0] == "literal" and len(cs) == 1 and cs[0][0] in NUMERIC and cs[0][1].startswith("-"):
+        return ["unary", [["unary_neg", []], ["literal", [[cs[0][0], cs[0][1][1:]]]]]]
+    return [o[0], cs]
+
+
 def show_obj(o) -> str:
     if isinstance(o[1], str):
         return f"{o[0]}:{hx(o[1])}"
@@ -720,12 +731,12 @@ class C06(Prop):
         if wf:
             want = abs_obj(ob["abs"])
             got = strip_obj(ob["tree"])
-            if got != want:
+            if norm_neg(got) != norm_neg(want):
                 return (f"{to_text(toks(e), None)!r} is not grouped as CEL's precedence table prescribes: "
                         f"got {show_obj(got)[:300]}, want {show_obj(want)[:300]}")
             if ob["fp_tree"] is None:
                 return f"fully parenthesised form does not parse: {to_text(toks(full_paren(ob['abs'])), None)!r}"
-            if strip_obj(ob["fp_tree"]) != got:
+            if norm_neg(strip_obj(ob["fp_tree"])) != norm_neg(got):
                 return (f"{to_text(toks(e), None)!r} and its fully parenthesised form "
                         f"{to_text(toks(full_paren(ob['abs'])), None)!r} parse to different trees")
         # dump round trip (for every tree the parser produced)
